@@ -1,0 +1,7 @@
+//go:build !verif
+
+package main
+
+// verification hooks, disabled in normal builds (see verif_on.go)
+
+func verifTraceRound(res Resolver, rels []UniRel) {}
